@@ -84,10 +84,10 @@ package implements
 //@   props C05 C10
 //@   assigns nothing
 //@   ensures len(result) == iface.NumMethods()
-//@   ensures forall a int :: 0 <= a && a < len(result) ==> result[a].Name == iface.Method(a).Name()
+//@   ensures forall a int :: 0 <= a && a < len(result) ==> result[a].Name == iface.Method(a).Name() && result[a].id == iface.Method(a).Id()
 //@   ensures forall a int :: 0 <= a && a < len(result) ==> tupleModelI(result[a].Inputs, sigOfFunc(iface.Method(a)).Params(), sigOfFunc(iface.Method(a)).Variadic()) && tupleModelI(result[a].Outputs, sigOfFunc(iface.Method(a)).Results(), false)
 //@   loop 1 invariant 0 <= $v && $v <= iface.NumMethods() && len(methods) == $v
-//@   loop 1 invariant forall a int :: 0 <= a && a < len(methods) ==> methods[a].Name == iface.Method(a).Name()
+//@   loop 1 invariant forall a int :: 0 <= a && a < len(methods) ==> methods[a].Name == iface.Method(a).Name() && methods[a].id == iface.Method(a).Id()
 //@   loop 1 invariant forall a int :: 0 <= a && a < len(methods) ==> tupleModelI(methods[a].Inputs, sigOfFunc(iface.Method(a)).Params(), sigOfFunc(iface.Method(a)).Variadic()) && tupleModelI(methods[a].Outputs, sigOfFunc(iface.Method(a)).Results(), false)
 // the type's methods are read from go/types' method set of *T (which contains the methods of T and *T, including the ones
 // promoted through embedding): one model per selection, in order, with its name and whether its receiver is a pointer
@@ -99,13 +99,13 @@ package implements
 //@   props C05 C10
 //@   assigns nothing
 //@   ensures len(result) == msOf(named).Len()
-//@   ensures forall a int :: 0 <= a && a < len(result) ==> result[a].Name == msOf(named).At(a).Obj().Name() && result[a].ReceiverIsPointer == !inValueSet(named, msOf(named).At(a).Obj())
+//@   ensures forall a int :: 0 <= a && a < len(result) ==> result[a].Name == msOf(named).At(a).Obj().Name() && result[a].id == msOf(named).At(a).Obj().Id() && result[a].ReceiverIsPointer == !inValueSet(named, msOf(named).At(a).Obj())
 //@   ensures forall a int :: 0 <= a && a < len(result) ==> tupleModelM(result[a].Inputs, sigOfFunc(cast(msOf(named).At(a).Obj(), *types.Func)).Params(), sigOfFunc(cast(msOf(named).At(a).Obj(), *types.Func)).Variadic()) && tupleModelM(result[a].Outputs, sigOfFunc(cast(msOf(named).At(a).Obj(), *types.Func)).Results(), false)
-//@   ensures forall a int, b int :: 0 <= a && a < b && b < len(result) ==> result[a].Name != result[b].Name
+//@   ensures forall a int, b int :: 0 <= a && a < b && b < len(result) ==> mKey(result[a].Name, result[a].id) != mKey(result[b].Name, result[b].id)
 //@   loop 1 invariant 0 <= $v && $v <= methodSet.Len() && methodSet != nil && len(methods) == $v
 //@   loop 1 invariant methodSet == msOf(named) && valueSet == types.NewMethodSet(named)
 //@   loop 1 invariant forall a int :: 0 <= a && a < len(methods) ==> tupleModelM(methods[a].Inputs, sigOfFunc(cast(methodSet.At(a).Obj(), *types.Func)).Params(), sigOfFunc(cast(methodSet.At(a).Obj(), *types.Func)).Variadic()) && tupleModelM(methods[a].Outputs, sigOfFunc(cast(methodSet.At(a).Obj(), *types.Func)).Results(), false)
-//@   loop 1 invariant forall a int :: 0 <= a && a < len(methods) ==> methods[a].Name == methodSet.At(a).Obj().Name() && methods[a].ReceiverIsPointer == !inValueSet(named, methodSet.At(a).Obj())
+//@   loop 1 invariant forall a int :: 0 <= a && a < len(methods) ==> methods[a].Name == methodSet.At(a).Obj().Name() && methods[a].id == methodSet.At(a).Obj().Id() && methods[a].ReceiverIsPointer == !inValueSet(named, methodSet.At(a).Obj())
 //@ func isPointerReceiver
 //@   props C10
 //@   nilable t
@@ -146,8 +146,15 @@ package implements
 
 // the type's methods that count: all for &I, only value-receiver methods for I; names in a method set are unique
 //@ macro func usable(m TypeMethod, requirePointer bool) bool = requirePointer || !m.ReceiverIsPointer
-//@ macro func implemented(tm *TypeModel, im InterfaceMethod, requirePointer bool) bool = exists q int :: 0 <= q && q < len(tm.Methods) && usable(tm.Methods[q], requirePointer) && tm.Methods[q].Name == im.Name && sigEq(tm.Methods[q], im)
-//@ macro func uniqueNames(tm *TypeModel) bool = forall a int, b int :: 0 <= a && a < b && b < len(tm.Methods) ==> tm.Methods[a].Name != tm.Methods[b].Name
+// a method is identified the way Go identifies it: go/types' Id (the name, qualified by the package path when it is not
+// exported); hand-built models (id == "") by the name
+//@ macro func mKey(name string, id string) string = id != "" ? id : name
+//@ macro func implemented(tm *TypeModel, im InterfaceMethod, requirePointer bool) bool = exists q int :: 0 <= q && q < len(tm.Methods) && usable(tm.Methods[q], requirePointer) && mKey(tm.Methods[q].Name, tm.Methods[q].id) == mKey(im.Name, im.id) && sigEq(tm.Methods[q], im)
+//@ macro func uniqueNames(tm *TypeModel) bool = forall a int, b int :: 0 <= a && a < b && b < len(tm.Methods) ==> mKey(tm.Methods[a].Name, tm.Methods[a].id) != mKey(tm.Methods[b].Name, tm.Methods[b].id)
+//@ func methodKey
+//@   props C05 C10
+//@   ensures result == mKey(name, id)
+//@   assigns nothing
 // IMPL03 (in the matcher's own model): exactly the interface methods without a usable method of the same name and signature
 //@ func checkImplementation
 //@   props C05 C10
@@ -159,8 +166,8 @@ package implements
 //@   loop 1 frame
 //@   loop 2 frame
 //@   loop 1 invariant typeMethods != nil && fresh(typeMethods)
-//@   loop 1 invariant forall n string :: indom(typeMethods, n) <==> (exists q int :: 0 <= q && q < $i && usable(typeModel.Methods[q], requirePointer) && typeModel.Methods[q].Name == n)
-//@   loop 1 invariant forall q int :: 0 <= q && q < $i && usable(typeModel.Methods[q], requirePointer) ==> typeMethods[typeModel.Methods[q].Name] == typeModel.Methods[q]
+//@   loop 1 invariant forall n string :: indom(typeMethods, n) <==> (exists q int :: 0 <= q && q < $i && usable(typeModel.Methods[q], requirePointer) && mKey(typeModel.Methods[q].Name, typeModel.Methods[q].id) == n)
+//@   loop 1 invariant forall q int :: 0 <= q && q < $i && usable(typeModel.Methods[q], requirePointer) ==> typeMethods[mKey(typeModel.Methods[q].Name, typeModel.Methods[q].id)] == typeModel.Methods[q]
 //@   loop 2 invariant forall j int :: 0 <= j && j < len(missing) ==> (exists k int :: 0 <= k && k < $i && missing[j] == iface.Methods[k] && !implemented(typeModel, iface.Methods[k], requirePointer))
 //@   loop 2 invariant forall k int :: 0 <= k && k < $i && !implemented(typeModel, iface.Methods[k], requirePointer) ==> (exists j int :: 0 <= j && j < len(missing) && missing[j] == iface.Methods[k])
 //@   loop 2 invariant (len(missing) > 0) == (exists k int :: 0 <= k && k < $i && !implemented(typeModel, iface.Methods[k], requirePointer))
